@@ -51,11 +51,14 @@ pub struct Config {
     pub cap: CapMode,
     pub handles: usize,
     pub nkeys: usize,
+    /// the key whose two hashes land on the same shard (secondary = next shard, by the distinctness fix-up) comes
+    /// first in the key list instead of last
+    pub fixup_first: bool,
 }
 
 impl Config {
     fn label(&self) -> String {
-        format!("{:?}/{:?}/h{}/k{}", self.front, self.cap, self.handles, self.nkeys)
+        format!("{:?}/{:?}/h{}/k{}{}", self.front, self.cap, self.handles, self.nkeys, if self.fixup_first { "/fixup-key-first" } else { "" })
     }
     fn nshards(&self) -> usize {
         match self.front {
@@ -87,6 +90,9 @@ impl Config {
             // secondary image equals the primary: the distinctness fix-up applies
             K::new("kd", ops::hash_for_primary(0, n), ops::hash_for_secondary(0, n)),
         ];
+        if self.fixup_first {
+            v.rotate_right(1);
+        }
         v.truncate(self.nkeys);
         v
     }
@@ -736,7 +742,7 @@ fn replay_history(cfg: &Config, hist: &[Sym], rep: &mut Report) -> (Live, Vec<(S
 
 fn case_json(cfg: &Config, hist: &[Sym]) -> Value {
     json!({
-        "config": {"front": format!("{:?}", cfg.front), "cap": format!("{:?}", cfg.cap), "handles": cfg.handles, "nkeys": cfg.nkeys},
+        "config": {"front": format!("{:?}", cfg.front), "cap": format!("{:?}", cfg.cap), "handles": cfg.handles, "nkeys": cfg.nkeys, "fixup_first": cfg.fixup_first},
         "history": hist.iter().map(|s| s.to_json()).collect::<Vec<_>>(),
     })
 }
@@ -761,6 +767,7 @@ fn parse_cfg(v: &Value) -> Config {
         },
         handles: v["handles"].as_u64().unwrap() as usize,
         nkeys: v["nkeys"].as_u64().unwrap() as usize,
+        fixup_first: v["fixup_first"].as_bool().unwrap_or(false),
     }
 }
 
@@ -843,7 +850,7 @@ fn fault_section(shard: Shard, rep: &mut Report) {
     use std::sync::{Arc, Mutex};
     let mut no = 0u64;
     for front in [FrontKind::Plain, FrontKind::Sharded(2)] {
-        let cfg = Config { front, cap: CapMode::Roomy, handles: 1, nkeys: 2 };
+        let cfg = Config { front, cap: CapMode::Roomy, handles: 1, nkeys: 2, fixup_first: false };
         let alpha: Vec<Sym> = alphabet(&cfg).into_iter().filter(|s| !s.fire).collect();
         for first in alpha.iter().filter(|s| s.is_write()) {
             for second in &alpha {
@@ -906,20 +913,26 @@ pub fn configs(tier: Tier) -> Vec<(Config, usize)> {
     } else {
         vec![FrontKind::Plain, FrontKind::Sharded(2), FrontKind::Sharded(3), FrontKind::Sharded(8), FrontKind::Stack, FrontKind::StackChecked]
     };
+    // the key subject to the distinctness fix-up, alone and with one neighbour, on 3 and 4 shards (its secondary shard
+    // is a function of the hashes alone, whatever the load estimates say)
+    for front in [FrontKind::Sharded(3), FrontKind::Sharded(4)] {
+        v.push((Config { front, cap: CapMode::Roomy, handles: 1, nkeys: 1, fixup_first: true }, if q { 4 } else { 6 }));
+        v.push((Config { front, cap: CapMode::Tight, handles: 1, nkeys: 2, fixup_first: true }, if q { 3 } else { 5 }));
+    }
     // total capacities that the shard count does not divide
     for front in [FrontKind::Sharded(3), FrontKind::Sharded(4)] {
-        v.push((Config { front, cap: CapMode::Odd, handles: 1, nkeys: 4 }, if q { 4 } else { 6 }));
+        v.push((Config { front, cap: CapMode::Odd, handles: 1, nkeys: 4, fixup_first: false }, if q { 4 } else { 6 }));
     }
     for front in fronts {
         for cap in [CapMode::Tight, CapMode::Roomy] {
             if q {
                 let stack = front.is_stack();
-                v.push((Config { front, cap, handles: 1, nkeys: if stack { 2 } else { 3 } }, if stack { 3 } else { 4 }));
-                v.push((Config { front, cap, handles: 2, nkeys: 2 }, if stack { 2 } else { 3 }));
+                v.push((Config { front, cap, handles: 1, nkeys: if stack { 2 } else { 3 }, fixup_first: false }, if stack { 3 } else { 4 }));
+                v.push((Config { front, cap, handles: 2, nkeys: 2, fixup_first: false }, if stack { 2 } else { 3 }));
             } else {
-                v.push((Config { front, cap, handles: 1, nkeys: 4 }, 5));
-                v.push((Config { front, cap, handles: 2, nkeys: 3 }, 4));
-                v.push((Config { front, cap, handles: 3, nkeys: 2 }, 4));
+                v.push((Config { front, cap, handles: 1, nkeys: 4, fixup_first: false }, 5));
+                v.push((Config { front, cap, handles: 2, nkeys: 3, fixup_first: false }, 4));
+                v.push((Config { front, cap, handles: 3, nkeys: 2, fixup_first: false }, 4));
             }
         }
     }
